@@ -85,6 +85,15 @@ def gen_cases(ctx):
                     {"o": "set", "h": 1, "vals": [float2bits(-1.3 + 0.2 * j) for j in range(k)]}, {"o": "exec", "c": 0}, {"o": "export", "c": 0},
                     {"o": "set", "h": 3, "vals": [float2bits(2.1 - 0.3 * j) for j in range(k)]}, {"o": "exec", "c": 0}, {"o": "export", "c": 0}]
             cases.append({"op": "param", "mode": "history", "n": 5, "v": rand_vec(rng, 5, "normalised"), "ops": ops, "thr": 10})
+    # one parametric gate with several targets (the public enum variant built directly): one concrete gate per target, all following
+    # the one parameter
+    for kind in [k for k in ARITY if k != "Match"]:
+        for cs in ([], [4]):
+            k = ARITY[kind]
+            ops = [{"o": "new", "vals": [float2bits(0.45 + 0.2 * j) for j in range(k)]},
+                   {"o": "add_raw", "kind": kind, "h": 0, "ts": [2, 0, 3], "cs": cs}, {"o": "build"}, {"o": "exec", "c": 0}, {"o": "export", "c": 0},
+                   {"o": "set", "h": 0, "vals": [float2bits(-0.9 + 0.4 * j) for j in range(k)]}, {"o": "exec", "c": 0}, {"o": "export", "c": 0}, {"o": "build_final"}, {"o": "exec", "c": 1}]
+            cases.append({"op": "param", "mode": "history", "n": 5, "v": rand_vec(rng, 5, "normalised"), "ops": ops, "thr": 10})
     for kind in ("RyPhase", "RyPhaseDag"):
         cases.append({"op": "param", "mode": "stress", "kind": kind, "a": [float2bits(0.7), float2bits(1.9)], "b": [float2bits(2.3), float2bits(-0.6)],
                       "writers": 2 if not ctx.thorough() else 4, "readers": 3 if not ctx.thorough() else 6, "millis": 700 if not ctx.thorough() else 4000})
@@ -98,6 +107,7 @@ def cq_xop(o):
     if k == "clone": return "XOp (HClone %s)" % cqN(o["h"])
     if k == "deep": return "XOp (HDeepClone %s)" % cqN(o["h"])
     if k == "add": return "XOp (HAdd %s %s %s %s)" % (KCOQ[o["kind"]], cqN(o["h"]), cqN(o["t"]), cqNs(o["cs"]))
+    if k == "add_raw": return "XOp (HAddMulti %s %s %s %s)" % (KCOQ[o["kind"]], cqNs([o["h"]] * len(o["ts"])), cqNs(o["ts"]), cqNs(o["cs"]))
     if k == "add_multi": return "XOp (HAddMulti %s %s %s %s)" % (KCOQ[o["kind"]], cqNs(o["hs"]), cqNs(o["ts"]), cqNs(o["cs"]))
     if k == "build": return "XOp HBuild"
     if k == "build_final": return "XOp HBuildFinal"
